@@ -24,14 +24,16 @@ import (
 // the handshake completes unless the script made the address go away.
 //
 // head:   wa t=<TargetOutbound> mf=<connmgr.maxFailedAttempts>
-// book:   a<g>.<i>.<p><r>   known before Start: 45.(10+g).(1+i).9 (outbound group g); p = d default port /
-//                           n non-default port; r = f fresh / r attempted just now (< 10 minutes ago)
+// book:   a<g>.<i>.<p><r>[n] known before Start: 45.(10+g).(1+i).9 (outbound group g); p = d default port /
+//                           n non-default port; r = f fresh / r attempted just now (< 10 minutes ago);
+//                           n = 1..8 learnt from n sources in different /16 groups, i.e. the address sits in
+//                           n new buckets of the address manager (refs = n)
 // events: X<k>              the remote closes the (k mod live)-th live connection
 //         Z<g>.<i>          the node at that address goes away: its live connections are closed by the
 //                           remote and every later dial to it is refused (after maxFailedAttempts refusals
 //                           the connection manager bans the address: addrManager.BanAddress)
 //         D<g>.<i>          later dials to that address are refused (a live connection stays)
-//         B<g>.<i>.<p><r>   a further address becomes known now (addrManager.AddAddresses)
+//         B<g>.<i>.<p><r>[n] a further address becomes known now (addrManager.AddAddresses, from n sources)
 // The address manager picks candidates at random, so only projections that do not depend on the pick
 // are observed.  At each step U = number of outbound groups with a known address that has not gone
 // away.  If U >= target the target is owed: the word is "<tag>:o<open connections>/c<ConnectedCount()>
@@ -40,14 +42,17 @@ import (
 // U < target the group filter (which never relaxes, by design) may make the target unreachable: the word
 // is "u".  A call into the address manager that does not return within its bound (AddAddresses for B,
 // a NeedMoreAddresses probe after every step) appends "/ADDRMGR-BLOCKED"; a B that did not return has
-// tag "#".  "s:" = after Start, "e:" = after a settling period.
+// tag "#".  When the address manager's own counters disagree with its tables (nTried vs. entries of the
+// tried table, nNew vs. distinct addresses of the new table, index size vs. both) the word gets
+// "/ADDRMGR-COUNTS:<nTried>-<in tried>,<nNew>-<in new>,<index>".  "s:" = after Start, "e:" = after a settling period.
 // Scripts with Z/D/B events run in a child process (a blocked address manager leaves a goroutine that
 // spins for ever holding the mutex; the child's exit ends it) with a hard time limit.
 
 type c18WaAddr struct {
-	g, i   int
-	port   int
-	recent bool
+	g, i    int
+	port    int
+	recent  bool
+	sources int
 }
 
 func c18WaParseAddr(s string, withFlags bool) (a c18WaAddr, ok bool) {
@@ -66,8 +71,15 @@ func c18WaParseAddr(s string, withFlags bool) (a c18WaAddr, ok bool) {
 	}
 	a = c18WaAddr{g: g, i: i, port: 8333}
 	if withFlags {
-		if len(f[2]) != 2 || !strings.ContainsRune("dn", rune(f[2][0])) || !strings.ContainsRune("fr", rune(f[2][1])) {
+		if (len(f[2]) != 2 && len(f[2]) != 3) || !strings.ContainsRune("dn", rune(f[2][0])) || !strings.ContainsRune("fr", rune(f[2][1])) {
 			return a, false
+		}
+		a.sources = 1
+		if len(f[2]) == 3 {
+			if f[2][2] < '1' || f[2][2] > '8' {
+				return a, false
+			}
+			a.sources = int(f[2][2] - '0')
 		}
 		if f[2][0] == 'n' {
 			a.port = 18555
@@ -80,7 +92,7 @@ func c18WaParseAddr(s string, withFlags bool) (a c18WaAddr, ok bool) {
 func (a c18WaAddr) ip() net.IP  { return net.IPv4(45, byte(10+a.g), byte(1+a.i), 9) }
 func (a c18WaAddr) key() string { return fmt.Sprintf("%d.%d", a.g, a.i) }
 func (a c18WaAddr) entry() p2p.VerifC18BookEntry {
-	return p2p.VerifC18BookEntry{IP: a.ip(), Port: a.port, Recent: a.recent}
+	return p2p.VerifC18BookEntry{IP: a.ip(), Port: a.port, Recent: a.recent, Sources: a.sources}
 }
 
 func c18WaNeedsChild(evs []string) bool {
@@ -266,6 +278,8 @@ func c18RunWa(head []string, evs []string, st *Stack) (obs string) {
 		sfx := ""
 		if blocked {
 			sfx = "/ADDRMGR-BLOCKED"
+		} else if nt, nn, it, in, ix, ok := w.AddrCounts(); ok && (nt != it || nn != in || ix != it+in) {
+			sfx = fmt.Sprintf("/ADDRMGR-COUNTS:%d-%d,%d-%d,%d", nt, it, nn, in, ix)
 		}
 		if !owed {
 			return "u" + sfx
@@ -363,12 +377,22 @@ func c18RunWa(head []string, evs []string, st *Stack) (obs string) {
 			for _, c := range victims {
 				_ = c.Close()
 			}
-			if e[0] == 'Z' && usable() < target && !blocked {
-				// nothing else can fill the slot: give the manager time to run into the ban of this address
+			if usable() < target && !blocked {
+				// nothing else can fill the free slots: give the manager time to run into the ban of
+				// every address that has gone away (the close itself is failure no. 1 of a connected one)
 				deadline := time.Now().Add(1500 * time.Millisecond)
 				for time.Now().Before(deadline) {
 					f.mu.Lock()
-					done := refused[addr] >= mf-1 || openCount() >= target // the close itself is failure no. 1
+					done := openCount() >= target
+					if !done {
+						done = true
+						for k, isGone := range gone {
+							ga := known[k]
+							if isGone && refused[(&net.TCPAddr{IP: ga.ip(), Port: ga.port}).String()] < mf-1 {
+								done = false
+							}
+						}
+					}
 					f.mu.Unlock()
 					if done {
 						break
@@ -389,6 +413,8 @@ func c18RunWa(head []string, evs []string, st *Stack) (obs string) {
 			if blocked || !w.AddAddress(a.entry(), 500*time.Millisecond) {
 				blocked = true
 				tag = "#"
+			} else if os.Getenv("C18_DEBUG") != "" {
+				fmt.Fprintln(os.Stderr, "refs of", a.key(), "=", w.Refs(a.entry()), "wanted", a.sources)
 			}
 		}
 		step(tag, want)
@@ -488,6 +514,33 @@ func c18GenWa(c *Ctx, st *Stack) error {
 			}
 			evs = append(evs, fmt.Sprintf("Z%d.0", 30), fmt.Sprintf("B%d.0.df", 40))
 			emit(t, append(evs, closes()...), "ban-one-by-one")
+			// an address learnt from several source groups (several new-bucket references) refuses until
+			// it is banned; then exactly refs-1 healthy addresses become known (the new-table counter
+			// must count ADDRESSES, not references), plus variants with more / fewer / earlier ones
+			for _, refs := range []int{2 + c.Rng.Intn(2), 2 + c.Rng.Intn(5)} {
+				evs = nil
+				for g := 0; g < t; g++ {
+					evs = append(evs, fmt.Sprintf("a%d.0.%s", g, fl()))
+				}
+				evs = append(evs, fmt.Sprintf("B60.0.%s%d", fl(), refs), "D60.0")
+				if c.Rng.Intn(3) == 0 {
+					evs = append(evs, fmt.Sprintf("B61.0.%s%d", fl(), 1+c.Rng.Intn(3)))
+				}
+				for g := 0; g < t; g++ {
+					evs = append(evs, fmt.Sprintf("Z%d.0", g))
+				}
+				healthy := refs - 1
+				if c.Rng.Intn(3) == 0 {
+					healthy = t + c.Rng.Intn(3)
+				}
+				if healthy < t {
+					healthy = t
+				}
+				for k := 0; k < healthy; k++ {
+					evs = append(evs, fmt.Sprintf("B%d.0.df%d", 70+k, 1+c.Rng.Intn(2)))
+				}
+				emit(t, append(evs, closes()...), "ban-multi-source")
+			}
 			// refusing addresses beside good ones of the same and of other groups
 			evs = nil
 			for g := 0; g < t+1; g++ {
